@@ -13,9 +13,13 @@ func HostileArgs(g *G, c *core.Case) {
 	if !g.Chance(35) {
 		return
 	}
-	var nonIface, genericNonIface, constr []string
+	var nonIface, genericNonIface, constr, nonTypeOK, nonTypeBad []string
 	for _, d := range g.locals {
 		switch {
+		case d.NonType == "var-iface" || d.NonType == "var-error":
+			nonTypeOK = append(nonTypeOK, d.Name)
+		case d.NonType != "":
+			nonTypeBad = append(nonTypeBad, d.Name)
 		case d.Constr:
 			constr = append(constr, d.Name)
 		case d.Iface:
@@ -27,7 +31,18 @@ func HostileArgs(g *G, c *core.Case) {
 	}
 	var bad, want string
 	for bad == "" {
-		switch g.Int(0, 9) {
+		switch g.Int(0, 11) {
+		case 10:
+			if len(nonTypeOK) > 0 {
+				// a variable whose type is an interface: moq may mock it or refuse it, it must not crash
+				bad = g.Pick(nonTypeOK)
+				want = "?"
+			}
+		case 11:
+			if len(nonTypeBad) > 0 {
+				bad = g.Pick(nonTypeBad)
+				want = bad + " ("
+			}
 		case 0:
 			bad = g.Pick([]string{"Missing", "NoSuchThing", "missing", "Xyz1", "Ünknown", "A B"})
 			want = "interface not found: " + bad
